@@ -235,7 +235,9 @@ func runC08(c *core.Ctx, drv string, idx int) {
 	}
 	var mt []meta
 	add := func(op proto.Op, m meta) int { mt = append(mt, m); return s.add(op) }
+	var seq []*attempt // every attempt in execution order
 	addAtt := func(a *attempt) {
+		seq = append(seq, a)
 		if a.text {
 			// integer literals are written with leading zeros now and then
 			add(proto.Op{K: "sql", SQL: proto.Text(model.RenderStmt(a.st, model.Style{ZeroPad: r.Chance(1, 4), R: r}))}, meta{kind: "att", att: a})
@@ -256,11 +258,30 @@ func runC08(c *core.Ctx, drv string, idx int) {
 	}
 	// selecting the current database again, spelled in another letter case,
 	// must not disturb anything (names are case-insensitive on disk)
+	// page flushes between statements (what the timer does): the values must
+	// survive the crash image at the end whichever of them were already in the
+	// data file and which only in the log
+	flushEvery := []int{0, 1, 3, 7}[idx%4]
+	extra := make([]attempt, 0, len(upds)) // capacity fixed: pointers into it are kept
+	if flushEvery > 0 {
+		add(proto.Op{K: "flush"}, meta{kind: "other"})
+	}
 	for i := range upds {
 		if i == len(upds)/2 {
 			add(proto.Op{K: "sql", SQL: "USE D1"}, meta{kind: "other"})
 		}
+		if i%5 == 2 {
+			// a fresh row in the table about to be updated, already in the data
+			// file when the UPDATE comes: insert, flush, update with nothing in
+			// between
+			extra = append(extra, attempt{st: &proto.Stmt{Kind: "insert", Table: "u", Rows: [][]proto.Val{base()}}, feature: "plain"})
+			addAtt(&extra[len(extra)-1])
+			add(proto.Op{K: "flush"}, meta{kind: "other"})
+		}
 		addAtt(&upds[i])
+		if flushEvery > 0 && i%flushEvery == 0 {
+			add(proto.Op{K: "flush"}, meta{kind: "other"})
+		}
 	}
 	// placeholder for the size-limit updates: generated from the model state
 	// below, so they are appended after a first pass over the model
@@ -269,11 +290,10 @@ func runC08(c *core.Ctx, drv string, idx int) {
 		m.Apply(st)
 	}
 	pm := m.Clone()
-	for i := range atts {
-		pm.Apply(atts[i].st)
-	}
-	for i := range upds {
-		pm.Apply(upds[i].st)
+	for _, a := range seq {
+		if len(a.st.RawKinds) == 0 {
+			pm.Apply(a.st)
+		}
 	}
 	var limitUpds []attempt
 	if vi >= 0 {
